@@ -616,7 +616,7 @@ func (d *driver) run(replay string) int {
 		d.logf("candidate from %s: [%s] %s", f.shard, f.Outcome.Clause, firstLine(f.Outcome.Violation))
 		c := f.Case
 		o := f.Outcome
-		nf, runs, ro, crashed, stderr := d.replayCase(c, cfg.ReplayRepeat, cfg.timeout(), "confirm")
+		nf, runs, ro, crashed, stderr := d.replayCase(c, cfg.ReplayRepeat, shortTimeout(cfg), "confirm")
 		rate := fmt.Sprintf("%d/%d", nf, runs)
 		note := ""
 		if nf > 0 {
